@@ -792,7 +792,13 @@ class SmallVectorBase : private Alloc {
   static inline void SwapDynamicBuffer(SmallVectorBase &vDynBuf,
                                        SmallVectorBase &vSmall) noexcept(is_swap_noexcept<T>::value) {
     T *oDynStorage = vDynBuf._storage.dyn();
-    (void)amc::uninitialized_relocate_n(vSmall._storage.ptr(), vSmall._capa, vDynBuf._storage.ptr());
+    try {
+      (void)amc::uninitialized_relocate_n(vSmall._storage.ptr(), vSmall._capa, vDynBuf._storage.ptr());
+    } catch (...) {
+      // the inline storage shares its bytes with the pointer to the dynamic buffer: put the pointer back
+      vDynBuf._storage.setDyn(oDynStorage);
+      throw;
+    }
     vSmall._storage.setDyn(oDynStorage);
   }
 
